@@ -58,10 +58,12 @@ func (c *Ctx) reportLockAccesses(rule string, la *lockset.Analysis, pkg, owner, 
 }
 
 func C16(c *Ctx) {
-	c.R.Explanation = "Decides structural necessary conditions of 'memory advances only with a successful write; requests are serialised' for cmd/mcrew: (R1) every mutation of the service's machine map and of a member's State is dominated by the err==nil outcome of a Storage.WriteState call in the same function; (R2) the machine map, members' states and every WriteState call are accessed only with the crew's lock held (write lock for mutations and for the store write), and a function that reads crew state and then writes it keeps one uninterrupted critical section (one acquisition dominating all accesses, no release before the last one); (R3) WriteState puts or deletes every given record inside the function literal of a single, loop-free db.Update whose result it returns, keeps no state of its own, and skips no record. Linearizability of observed outcomes is not decided."
+	c.R.Explanation = "Decides structural necessary conditions of 'memory advances only with a successful write; requests are serialised' for cmd/mcrew: (R1) every mutation of the service's machine map and of a member's State is dominated by the err==nil outcome of a Storage.WriteState call in the same function; (R2) the machine map, members' states and every WriteState call are accessed only with the crew's lock held (write lock for mutations and for the store write), and a function that reads crew state and then writes it keeps one uninterrupted critical section (one acquisition dominating all accesses, no release before the last one); (R3) WriteState puts or deletes every given record inside the function literal of a single, loop-free db.Update whose result it returns, keeps no state of its own, and skips no record. (R4) in AddMachine the node name and bindings of the record handed to WriteState resolve (through struct literals, helpers and defaults) to exactly the values installed as the new machine's State, so a restart loads what memory holds. Linearizability of observed outcomes is not decided."
 	c.R.Rule("C16-R1", "E3", "write dominates memory update", 3)
 	c.R.Rule("C16-R2", "E4", "lock discipline and single critical section", 10)
 	c.R.Rule("C16-R3", "E7+E3", "one transaction for all records", 4)
+	c.R.Rule("C16-R4", "E5", "the record written for a new machine is the state installed in memory", 2)
+	c16Added(c)
 	fns := c.P.FuncsIn("cmd/mcrew", "crew")
 	if len(fns) == 0 {
 		c.R.Break("C16: packages cmd/mcrew and crew not loaded")
@@ -349,4 +351,120 @@ func C16(c *Ctx) {
 	}
 	sort.Strings(fieldWrites)
 	c.R.Check(len(fieldWrites) == 0, "C16-R3", "WriteState: the store keeps no write-side state", c.P.Pos(writeState.Pos()), "no field of Storage is written", "WriteState updates its own state ("+strings.Join(fieldWrites, "; ")+"): what it remembers can differ from what the database holds after a failed transaction")
+}
+
+// c16Added: C16-R4.
+func c16Added(c *Ctx) {
+	add := c.fn("cmd/mcrew", "Service", "AddMachine")
+	writeState := c.P.Func("cmd/mcrew", "Storage", "WriteState")
+	if add == nil || writeState == nil {
+		return
+	}
+	scope := []*ssa.Function{add}
+	for _, f := range pkgClosure(add) {
+		if f != add && prog.PkgOf(f) == "cmd/mcrew" && f != writeState {
+			scope = append(scope, f)
+		}
+	}
+	// the installed machine: the value stored into crew.Machines
+	var installed ssa.Value
+	ssau.Instrs(add, func(in ssa.Instruction) {
+		if mu, ok := in.(*ssa.MapUpdate); ok {
+			if _, is := ssau.LoadOfField(mu.Map, prog.Abs("crew"), "Crew", "Machines"); is {
+				installed = mu.Value
+			}
+		}
+	})
+	// the record: a MachineState whose address reaches WriteState
+	var rec *ssa.Alloc
+	for _, f := range scope {
+		ssau.Instrs(f, func(in ssa.Instruction) {
+			if al, ok := in.(*ssa.Alloc); ok && ssau.TypeIs(al.Type(), prog.Abs("cmd/mcrew"), "MachineState") {
+				rec = al
+			}
+		})
+	}
+	if installed == nil || rec == nil {
+		c.R.Break("C16-R4: AddMachine's installed machine or written record not found")
+		return
+	}
+	fieldOfRec := func(name string) []ssa.Value {
+		var vals []ssa.Value
+		st := rec.Type().Underlying().(*types.Pointer).Elem().Underlying().(*types.Struct)
+		for _, f := range scope {
+			ssau.Instrs(f, func(in ssa.Instruction) {
+				sto, ok := in.(*ssa.Store)
+				if !ok {
+					return
+				}
+				fa, isFA := sto.Addr.(*ssa.FieldAddr)
+				if !isFA || fa.X != ssa.Value(rec) || st.Field(fa.Field).Name() != name {
+					return
+				}
+				vals = append(vals, resolveThroughLocals(sto.Val, scope)...)
+			})
+		}
+		return vals
+	}
+	// installed.State.<name>: build the load expression's resolution by hand: the State objects stored into installed.State
+	fieldOfInstalled := func(name string) []ssa.Value {
+		var vals []ssa.Value
+		var machines []*ssa.Alloc
+		for _, d := range deepDefs(installed, scope) {
+			if a, ok := d.(*ssa.Alloc); ok {
+				machines = append(machines, a)
+			}
+		}
+		var states []*ssa.Alloc
+		for _, f := range scope {
+			ssau.Instrs(f, func(in ssa.Instruction) {
+				sto, ok := in.(*ssa.Store)
+				if !ok || !ssau.IsField(sto.Addr, prog.Abs("crew"), "Machine", "State") {
+					return
+				}
+				_, _, base, _ := ssau.FieldOf(sto.Addr)
+				for _, m := range machines {
+					hit := base == ssa.Value(m)
+					for _, bd := range deepDefs(base, scope) {
+						if bd == ssa.Value(m) {
+							hit = true
+						}
+					}
+					if hit {
+						for _, d := range deepDefs(sto.Val, scope) {
+							if a, ok := d.(*ssa.Alloc); ok {
+								states = append(states, a)
+							}
+						}
+					}
+				}
+			})
+		}
+		for _, f := range scope {
+			ssau.Instrs(f, func(in ssa.Instruction) {
+				sto, ok := in.(*ssa.Store)
+				if !ok || !ssau.IsField(sto.Addr, prog.Abs("core"), "State", name) {
+					return
+				}
+				_, _, base, _ := ssau.FieldOf(sto.Addr)
+				for _, s := range states {
+					hit := base == ssa.Value(s)
+					for _, bd := range deepDefs(base, scope) {
+						if bd == ssa.Value(s) {
+							hit = true
+						}
+					}
+					if hit {
+						vals = append(vals, resolveThroughLocals(sto.Val, scope)...)
+					}
+				}
+			})
+		}
+		return vals
+	}
+	for _, name := range []string{"NodeName", "Bs"} {
+		r, m := fieldOfRec(name), fieldOfInstalled(name)
+		ok := len(r) > 0 && len(m) > 0 && leafSetKey(r) == leafSetKey(m)
+		c.R.Check(ok, "C16-R4", "AddMachine: the record's "+name+" is the installed state's "+name, c.pos(rec), "both resolve to the same values (defaults included)", fmt.Sprintf("the %s written to the store (%d source values) is not the %s installed in memory (%d source values): after a restart the machine differs from the one that was running", name, len(r), name, len(m)))
+	}
 }
